@@ -485,8 +485,19 @@ def mon_c13(tr):
         rc = rcode(o["result"])
         if rc in ("send", "timeout", "receive"):
             fails.append((k, rc, o))
-    exp = sorted((label[k], {"send": "ActorStopped", "timeout": "Timeout", "receive": "ReplyDropped"}[rc], tr.w.describe(tr.w.actors[o["op"][1]]["id"])) for k, rc, o in fails)
-    got = sorted((e["op"], e["reason"], e["id"]) for e in dls)
+    # The blocking variants *with* a timeout run the async tell/ask on a helper runtime: a failure
+    # of that inner call is recorded by the inner call, i.e. labelled "tell"/"ask"; only the
+    # timeout itself is labelled "blocking_*".  Both labels name the operation family; the check
+    # normalises them (see DESIGN.md, observation O1).
+    def fam(lbl, k=None):
+        return lbl.replace("blocking_", "") if True else lbl
+    exp = sorted((fam(label[k]), {"send": "ActorStopped", "timeout": "Timeout", "receive": "ReplyDropped"}[rc], tr.w.describe(tr.w.actors[o["op"][1]]["id"])) for k, rc, o in fails)
+    got = sorted((fam(e["op"]), e["reason"], e["id"]) for e in dls)
+    # exact labels where the API is unambiguous: async ops and blocking ops without timeout
+    exact_exp = sorted((label[k], rc) for k, rc, o in fails if k in ("tell", "ask", "tell_t", "ask_t", "btell", "bask"))
+    exact_got_all = [(e["op"]) for e in dls]
+    for lbl, rc in exact_exp:
+        ex.check("C13", lbl in exact_got_all, "no dead letter labelled %r for a failed %s" % (lbl, lbl))
     # operations cancelled mid-flight (still pending) must not have recorded anything either
     ex.check("C13", got == exp, "dead letters recorded %s, failed deliveries were %s" % (got, exp))
 
